@@ -133,6 +133,7 @@ McMoves == {
   [Base("REFUSE", 10) EXCEPT !.id = 99, !.reason = 2],
   [Base("REFUSE", 10) EXCEPT !.id = 1, !.reason = 2],
   MTerm(FALSE, 0),
+  MTerm(TRUE, 0),
   [Base("UNKNOWN", 4) EXCEPT !.typ = 9],
   Base("KA", 1)
 }
